@@ -367,6 +367,30 @@ F6Schemas(z) == UNION {F6Atoms, {[not |-> a] : a \in F6Atoms}, {[properties |-> 
 F6Insts == UNION {F6Vals, {Arr(<<x, y>>) : x \in F6Small, y \in F6Small}, {Obj([a |-> x]) : x \in F6Vals},
                   {Arr(<<Arr(<<x, y>>)>>) : x \in {Obj([a |-> Null]), Obj([b |-> Null])}, y \in {Obj([a |-> Null]), Obj([b |-> Null])}}}
 
+\* ------------------------------------------------------------ W wide values
+\* objects and arrays with many members (17, 20, 33, 70): whatever work bound, bucket count or
+\* iteration order the implementation uses, equality and uniqueness are decided on ALL members
+WKey(i) == "k" \o ToString(i)
+Wide(n, x) == Obj([k \in {WKey(i) : i \in 1..n} |-> x])
+WideBut(n, x, j, y) == Obj([k \in {WKey(i) : i \in 1..n} |-> IF k = WKey(j) THEN y ELSE x])
+WideArr(n, x) == Arr([i \in 1..n |-> x])
+WideArrBut(n, x, j, y) == Arr([i \in 1..n |-> IF i = j THEN y ELSE x])
+WSizes == {3, 16, 17, 20, 33, 70}
+WSchemas(z) == {[uniqueItems |-> TRUE], [items |-> [uniqueItems |-> TRUE]], [properties |-> [a |-> [uniqueItems |-> TRUE]]]}
+               \cup {[const |-> Wide(n, Num(R_1))] : n \in WSizes} \cup {[enum |-> <<Num(R_0), WideArr(n, Num(R_1))>>] : n \in WSizes}
+               \cup {[items |-> [const |-> Wide(17, Null)]], [not |-> [enum |-> <<Wide(20, Num(R_1)), Wide(17, Num(R_1))>>]]}
+WInsts == UNION {
+  {Wide(n, Num(R_1)) : n \in WSizes}, {WideArr(n, Num(R_1)) : n \in WSizes}, {Wide(17, Null)},
+  {Arr(<<Wide(n, Num(R_1)), Wide(n, Num(R_1))>>) : n \in WSizes},
+  {Arr(<<Wide(n, Num(R_1)), WideBut(n, Num(R_1), n, Num(R_2))>>) : n \in WSizes},
+  {Arr(<<Wide(n, Num(R_1)), WideBut(n, Num(R_1), 1, Null)>>) : n \in WSizes},
+  {Arr(<<WideArr(n, Num(R_1)), WideArr(n, Num(R_1))>>) : n \in WSizes},
+  {Arr(<<WideArr(n, Num(R_1)), WideArrBut(n, Num(R_1), n, Num(R_0))>>) : n \in WSizes},
+  {Arr(<<Wide(17, Null), Wide(17, Null)>>), Arr(<<Wide(17, Null), Wide(16, Null)>>), Arr(<<Wide(20, Num(R_1)), Wide(17, Num(R_1))>>)},
+  {Obj([a |-> Arr(<<Wide(20, Num(R_1)), Num(R_1), Wide(20, Num(R_1))>>)]), Arr(<<Arr(<<Wide(33, Str("a")), Wide(33, Str("a"))>>)>>)},
+  {WideArr(n, Wide(2, Num(R_1))) : n \in {2, 17}}, {Arr([i \in 1..n |-> Num(Mark[(i % 5) + 1])]) : n \in {5, 6, 40}},
+  {Arr([i \in 1..n |-> Arr(<<Num(Mark[(i % 5) + 1]), Num(Mark[((i \div 5) % 5) + 1])>>)]) : n \in {25, 26}}}
+
 \* ------------------------------------------------------------ selection
 Stamp(s) == IF Dr = "d7" THEN s @@ [schema |-> D7http] ELSE s
 WithSchema(ss) == {Single(Stamp(s)) : s \in ss}
@@ -413,6 +437,7 @@ Cases ==
     [] Family = "F4" -> WithSchema(F4Schemas(0))
     [] Family = "F5" -> WithSchema(F5Docs(0))
     [] Family = "F6" -> WithSchema(F6Schemas(0))
+    [] Family = "W" -> WithSchema(WSchemas(0))
     [] Family = "U1" -> WithSchema(U1Schemas(0))
     [] Family = "U2" -> WithSchema(U2Schemas(0))
     [] Family = "G1" -> WithSchema(G1Schemas(0))
@@ -429,6 +454,7 @@ InstSet ==
     [] Family = "F4" -> LogicVals
     [] Family = "F5" -> F5Vals
     [] Family = "F6" -> F6Insts
+    [] Family = "W" -> WInsts
     [] Family = "U1" -> U1Vals
     [] Family = "U2" -> U2Vals
     [] Family = "G1" -> ArrVals
